@@ -27,7 +27,6 @@ type rfSched struct {
 	K   int    `json:"k"`
 }
 
-
 // schedSrc is SrcRead of ReaderFaults.tla.
 type schedSrc struct {
 	b      []byte
